@@ -503,6 +503,7 @@ func TestHostileConsensus(t *testing.T) {
 				}
 			}
 			if o.dropped || !p.BaseService.IsRunning() {
+				e.awaitPeerRoutines(p)
 				// the peer reconnects under a new identity
 				p = newPeer(false)
 				ps = e.addPeer(p)
